@@ -313,7 +313,7 @@ def cut (comp : Int → Bytes → Bytes) (d : Nat) : List (Entry d) → Nat → 
 /-- the decompressors undo the brokers' compressors (gzip: codec 1; snappy in xerial framing: codec 2) -/
 structure Inv (cx : Codecs) (comp : Int → Bytes → Bytes) : Prop where
   gzip : ∀ b, cx.gunzip (comp 1 b) = some b
-  snappy : ∀ b, ∃ s, validateStream (comp 2 b) = .ok s ∧ snappyChunks cx.unsnap (s.length + 1) s [] = .ok b
+  snappy : ∀ b, ∃ s, validateStream (comp 2 b) = .ok s ∧ snappyChunks (uncompressTo cx) (s.length + 1) s [] = .ok b
 
 theorem ne_of_len (w : Msg) (rest : Bytes) : (encMsg w ++ rest).isEmpty = false := by
   have := encMsg_len_pos w
@@ -643,15 +643,30 @@ theorem mapM_some (l : List Bytes) : l.mapM (fun x => (some x : Option Bytes)) =
   | nil => rfl
   | cons a r ih => simp [List.mapM_cons, ih]
 
-def idCodecs : Codecs := ⟨some, some⟩
+def idCodecs : Codecs := ⟨some, some, fun b => some b.length⟩
 def idComp (c : Int) (b : Bytes) : Bytes := if c = 2 then xerialFrame (chunksOf b.length b) else b
+
+theorem uncompressTo_id (c : Bytes) (h : blockOK c) : uncompressTo idCodecs c = some c := by
+  unfold uncompressTo idCodecs
+  have h1 : ¬ (c.length > 32 * c.length) := by omega
+  have h2 : ¬ (c.length = 0) := by have := h.1; omega
+  simp [h1, h2]
+
+theorem mapM_uncompressTo_id : ∀ (l : List Bytes), (∀ c ∈ l, blockOK c) → l.mapM (uncompressTo idCodecs) = some l := by
+  intro l
+  induction l with
+  | nil => intro _; rfl
+  | cons a r ih =>
+    intro h
+    simp [List.mapM_cons, uncompressTo_id a (h a (by simp)), ih (fun c hc => h c (by simp [hc]))]
 
 theorem idInv : Inv idCodecs idComp where
   gzip := fun b => by simp [idCodecs, idComp]
   snappy := fun b => by
-    have := C02_xerial (fun x => some x) (chunksOf b.length b) (chunksOf b.length b) (chunksOf_ok _ b) (mapM_some _)
+    have := C02_xerial (uncompressTo idCodecs) (chunksOf b.length b) (chunksOf b.length b) (chunksOf_ok _ b)
+      (mapM_uncompressTo_id _ (chunksOf_ok _ b))
     rw [chunksOf_flatten b.length b (Nat.le_refl _)] at this
-    simpa [idCodecs, idComp] using this
+    simpa [idComp] using this
 
 
 /-! ### non-vacuity: a concrete two-level log entry -/
